@@ -16,6 +16,9 @@ locked hand-over / close), for both instances (`k = .conn`: `Conn.Execute`/`Must
 * `c05_closed_rejects`, `c05_must_accepts`, `c05_open_accepts`
 * `c05_panic_like_return`, `c05_panic_then_next`   a panicking job leaves the drainer exactly where a returning
                             job leaves it, and its locked hand-over step is enabled
+* `c05_rejected_never_runs` on a closed connection a job submitted through `Execute` (however often) is never accepted,
+                            never running, never done — in every continuation; the closed flag is never reset
+* `c05_must_runs`           after `MustExecute(j)` in any reachable state the drainer gets to `j`
 * `c05_completes`           from every reachable state the drainer alone (no help from submitters) finishes
                             everything that was accepted — whatever panicked before
 * `c05_close_after_earlier` a job (e.g. the close handler, routed through `MustExecute`) is entered only after
@@ -242,6 +245,129 @@ theorem c05_completes (k : Kind) (as : List Act) :
     ∃ n, (drain k n s).drs = [] ∧ (drain k n s).done = s.acc ∧ (drain k n s).acc = s.acc := by
   intro s
   exact ⟨mu s, drain_completes k (mu s) s (inv_reach k as) (Nat.le_refl _)⟩
+
+
+/-! ### refused means never run; MustExecute means run -/
+
+theorem done_prefix_of_inv {k : Kind} {s : St} (hi : Inv k s) : s.done <+: s.acc := by
+  rcases hi.shape with ⟨_, _, hda, _⟩ | ⟨x, hd, di⟩
+  · rw [hda]; exact List.prefix_refl _
+  · rcases ph_cases k x with hh | hr | hw
+    · obtain ⟨p, _, _, ha, _⟩ := di.hold hh; exact ⟨_, ha⟩
+    · obtain ⟨p, _, _, ha, _⟩ := di.runs hr; exact ⟨_, ha⟩
+    · exact ⟨_, (di.wait hw).1⟩
+
+/-- the closed flag is never reset, and on a closed conn only `MustExecute` extends the accepted jobs -/
+theorem closed_step (s s' : St) (a : Act) (j : Nat) (hs : step .conn s a = some s') (hc : s.closed = true)
+    (hj : j ∉ s.acc) (ha : a ≠ .submit j true) : s'.closed = true ∧ j ∉ s'.acc := by
+  cases a with
+  | submit i must =>
+    simp only [step] at hs
+    split at hs
+    · cases hs; exact ⟨hc, hj⟩
+    · rename_i hcond
+      have hm : must = true := by
+        cases must
+        · simp [hc] at hcond
+        · rfl
+      have hij : i ≠ j := by intro h; apply ha; rw [h, hm]
+      split at hs <;> (cases hs; exact ⟨hc, by simp [hj, Ne.symm hij]⟩)
+  | spawn d big =>
+    simp only [step] at hs
+    split at hs
+    · split at hs
+      · cases hs; exact ⟨hc, hj⟩
+      · cases hs
+    · cases hs
+  | start d =>
+    simp only [step] at hs
+    split at hs
+    · split at hs
+      · cases hs; exact ⟨hc, hj⟩
+      · cases hs
+    · cases hs
+  | finish d p =>
+    simp only [step] at hs
+    split at hs
+    · split at hs
+      · cases hs; exact ⟨hc, hj⟩
+      · cases hs
+    · cases hs
+  | next d big =>
+    simp only [step] at hs
+    split at hs
+    · split at hs
+      · cases hs
+        simp only [take]
+        split
+        · exact ⟨hc, hj⟩
+        · split <;> exact ⟨hc, hj⟩
+      · cases hs
+    · cases hs
+  | close =>
+    simp only [step] at hs
+    split at hs
+    · cases hs; exact ⟨rfl, hj⟩
+    · cases hs
+
+theorem closed_run (j : Nat) : ∀ (bs : List Act) (s : St), s.closed = true → j ∉ s.acc →
+    (∀ b ∈ bs, b ≠ .submit j true) → (run .conn s bs).closed = true ∧ j ∉ (run .conn s bs).acc := by
+  intro bs
+  induction bs with
+  | nil => intro s hc hj _; exact ⟨hc, hj⟩
+  | cons b bs ih =>
+    intro s hc hj hb
+    simp only [run]
+    split
+    · rename_i s' hs
+      obtain ⟨h1, h2⟩ := closed_step s s' b j hs hc hj (hb b (by simp))
+      exact ih s' h1 h2 (fun x hx => hb x (by simp [hx]))
+    · exact ih s hc hj (fun x hx => hb x (by simp [hx]))
+
+/-- `Execute` on a closed connection never runs the job: once the connection is closed (it stays closed),
+    a job id that was not accepted before is never accepted through `Execute` — whatever happens later and
+    however often it is re-submitted with `Execute` — and therefore never runs.  (Only a `MustExecute` of the
+    same job could run it.) -/
+theorem c05_rejected_never_runs (as bs : List Act) (j : Nat) :
+    (run .conn init as).closed = true → j ∉ (run .conn init as).acc → (∀ b ∈ bs, b ≠ .submit j true) →
+    j ∉ (run .conn (run .conn init as) (.submit j false :: bs)).done ∧
+    j ∉ runningJobs (run .conn (run .conn init as) (.submit j false :: bs)) := by
+  intro hc hj hb
+  have hi := inv_reach .conn as
+  generalize run .conn init as = s at hc hj hi
+  have hrej : step .conn s (.submit j false) = some s := c05_closed_rejects s j hc
+  simp only [run, hrej]
+  obtain ⟨_, hacc⟩ := closed_run j bs s hc hj hb
+  have hi' := inv_run .conn bs s hi
+  generalize run .conn s bs = t at hacc hi'
+  have hp := done_prefix_of_inv hi'
+  refine ⟨fun hd => hacc (hp.subset hd), ?_⟩
+  -- a running job is accepted as well
+  intro hr
+  rcases hi'.shape with ⟨hd, _⟩ | ⟨x, hd, di⟩
+  · simp [runningJobs, hd] at hr
+  · rw [runningJobs_one t x hd] at hr
+    split at hr
+    · rename_i hrun
+      obtain ⟨p, _, hg, ha, _⟩ := di.runs hrun
+      have : j = x.job := by simpa using hr
+      apply hacc
+      rw [← ha, this]
+      have := List.mem_of_getElem? hg
+      simp only [List.mem_append]
+      right
+      rw [drop_succ_of_get hg]; simp
+    · simp at hr
+
+/-- `MustExecute` always runs the job: after `MustExecute(j)` in any reachable state — closed or not — the
+    drainer (given that the executor starts it and jobs return or panic) gets to `j` and runs it. -/
+theorem c05_must_runs (k : Kind) (as : List Act) (j : Nat) :
+    ∃ s1, step k (run k init as) (.submit j true) = some s1 ∧ ∃ n, j ∈ (drain k n s1).done := by
+  obtain ⟨s1, hs, hacc, _⟩ := c05_must_accepts k (run k init as) j
+  refine ⟨s1, hs, mu s1, ?_⟩
+  have hi := inv_step k _ s1 _ (inv_reach k as) hs
+  have := (drain_completes k (mu s1) s1 hi (Nat.le_refl _)).2.1
+  rw [this, hacc]; simp
 
 /-! ### close handling comes after all earlier jobs -/
 
